@@ -267,7 +267,26 @@ EQUIV = [
 
 
 def run_equiv(sv, tier, res):
+    import copy
+    import pickle
     docs = built(tier, 'plain')
+    # a pickled / deep-copied compiled selector must select what the original selects (all four kinds, of S, negative terms)
+    rt = [':nth-child(2n+1)', ':nth-last-child(2)', ':nth-of-type(2)', ':nth-last-of-type(-n+2)', ':nth-last-child(1 of a)', ':nth-child(-2n+3 of b)',
+          ':first-child', ':last-child', ':only-of-type', ':last-of-type', 'a:nth-last-child(odd)', ':not(:nth-last-of-type(1))']
+    for text in rt:
+        c = sv.compile(text)
+        clones = [('deepcopy', copy.deepcopy(c)), ('copy', copy.copy(c))] + [('pickle%d' % p, pickle.loads(pickle.dumps(c, p))) for p in (0, 2, pickle.HIGHEST_PROTOCOL)]
+        for how, cl in clones:
+            for ctxname, forest, xml, target, ctx, detached in docs[::3]:
+                a = [c.match(target)] if detached else c.select(target)
+                b = [cl.match(target)] if detached else cl.select(target)
+                res.evaluations += 1
+                same = (a == b) if detached else (len(a) == len(b) and all(p is q for p, q in zip(a, b)))
+                if not same:
+                    res.fail({'layer': 'equiv', 'forest': forest, 'xml': xml, 'detached': detached, 'pair': [text, how]},
+                             {'kind': 'clone-selects-differently', 'how': how.rstrip('0123456789')}, f'{how} of compile({text!r}) selects differently on {T.to_markup(forest)!r}')
+                    break
+                res.outcome('clone-same')
     for x, y in EQUIV:
         for ctxname, forest, xml, target, ctx, detached in docs:
             if detached:
@@ -292,6 +311,16 @@ def replay(case):
     forest = _sel.tup(case['forest'])
     xml = case['xml']
     target = T.build_detached(forest[0], xml) if case['detached'] else T.build_api(forest, xml)
+    if case['layer'] == 'equiv' and case['pair'][1].startswith(('deepcopy', 'copy', 'pickle')):
+        import copy
+        import pickle
+        text, how = case['pair']
+        c = sv.compile(text)
+        cl = copy.deepcopy(c) if how == 'deepcopy' else (copy.copy(c) if how == 'copy' else pickle.loads(pickle.dumps(c, int(how[6:]))))
+        a = [c.match(target)] if case['detached'] else c.select(target)
+        b = [cl.match(target)] if case['detached'] else cl.select(target)
+        same = (a == b) if case['detached'] else (len(a) == len(b) and all(p is q for p, q in zip(a, b)))
+        return None if same else ({'kind': 'clone-selects-differently', 'how': how.rstrip('0123456789')}, f'{how} of {text!r}: {b} vs {a}')
     if case['layer'] == 'equiv':
         x, y = case['pair']
         if case['detached']:
